@@ -283,16 +283,49 @@ def r09b(model, ctx):
 
 def r09c(model, ctx):
     R = "R-09c"
+    def sorted_loops(f):
+        """loops of `f` that walk the planned files in sorted order: directly (`for filename in sorted(self.files)`), or
+        through a generator method of BuildPlan whose only loop does and which yields (filename, self.files[filename]);
+        returns [(loop, {local name: what it denotes})]"""
+        out = []
+        for lp in ast.walk(f):
+            if not isinstance(lp, ast.For):
+                continue
+            if unparse(lp.iter) == "sorted(self.files)" and isinstance(lp.target, ast.Name):
+                out.append((lp, {lp.target.id: "filename"}))
+                continue
+            if isinstance(lp.iter, ast.Call) and isinstance(lp.iter.func, ast.Attribute) and unparse(lp.iter.func.value) == "self" \
+                    and not lp.iter.args:
+                g = model.func(f"{RUN}::BuildPlan.{lp.iter.func.attr}", optional=True)
+                if g is None:
+                    continue
+                gl = [x for x in ast.walk(g) if isinstance(x, ast.For)]
+                ys = [x for x in ast.walk(g) if isinstance(x, ast.Yield)]
+                if len(gl) == 1 and len(ys) == 1 and unparse(gl[0].iter) == "sorted(self.files)" and isinstance(gl[0].target, ast.Name):
+                    v = gl[0].target.id
+                    y = ys[0].value
+                    if isinstance(y, ast.Tuple) and len(y.elts) == 2 and unparse(y.elts[0]) == v and \
+                            unparse(y.elts[1]) == f"self.files[{v}]" and isinstance(lp.target, ast.Tuple) and len(lp.target.elts) == 2:
+                        out.append((lp, {unparse(lp.target.elts[0]): "filename", unparse(lp.target.elts[1]): "self.files[filename]"}))
+        return out
+
     f = model.func(f"{RUN}::BuildPlan.digest")
-    ok = any(isinstance(s, ast.For) and unparse(s.iter) == "sorted(self.files)" for s in ast.walk(f)) and \
-        "hasher.update(self.script.encode('utf-8'))" in unparse(f)
+    ok = len(sorted_loops(f)) == 1 and "hasher.update(self.script.encode('utf-8'))" in unparse(f)
     ctx.check(ok, R, "BuildPlan.digest", "hashes sorted(self.files) names+contents and the script name",
               "digest() must hash file names and contents in sorted order, plus the script name", f"{RUN}:{f.lineno}")
     f = model.func(f"{RUN}::BuildPlan.archive")
-    ok = any(isinstance(s, ast.For) and unparse(s.iter) == "sorted(self.files)" for s in ast.walk(f))
+    sl = sorted_loops(f)
+    ok = len(sl) == 1
     ws = [n for n in ast.walk(f) if isinstance(n, ast.Call) and unparse(n.func) == "archive.writestr"]
-    okz = len(ws) == 1 and isinstance(ws[0].args[0], ast.Call) and unparse(ws[0].args[0].func) == "zipfile.ZipInfo" and \
-        len(ws[0].args[0].args) == 1 and not ws[0].args[0].keywords and unparse(ws[0].args[1]) == "self.files[filename]"
+    okz = False
+    if ok and len(ws) == 1 and isinstance(ws[0].args[0], ast.Call) and unparse(ws[0].args[0].func) == "zipfile.ZipInfo" and \
+            len(ws[0].args[0].args) == 1 and not ws[0].args[0].keywords:
+        names = sl[0][1]
+        fn_arg = unparse(ws[0].args[0].args[0])
+        content = unparse(ws[0].args[1])
+        fname_var = [k for k, v in names.items() if v == "filename"][0]
+        okz = names.get(fn_arg) == "filename" and (names.get(content) == "self.files[filename]" or content == f"self.files[{fname_var}]") \
+            and any(ws[0] is x for x in ast.walk(sl[0][0]))
     ctx.check(ok and okz, R, "BuildPlan.archive", "members in sorted order, written through ZipInfo(filename) (fixed 1980 timestamp)",
               "archive() must write members in sorted order through zipfile.ZipInfo(filename) — a bare file name (or a "
               "date_time argument) stamps the current time into the archive", f"{RUN}:{f.lineno}")
